@@ -22,6 +22,8 @@ type windowBuffer struct {
 	window        []byte
 	consumedBytes int
 	newlinesSeen  int
+	// leading whitespace dropped before the JSON decoder started (decoder offsets are relative to it)
+	skippedBytes int
 }
 
 func (c *windowBuffer) Write(p []byte) (int, error) {
@@ -41,16 +43,16 @@ func (c *windowBuffer) Write(p []byte) (int, error) {
 	return len(p), nil
 }
 
-func errorOffset(inputLength int, err error) (offset int, ok bool) {
+func errorOffset(inputLength, skipped int, err error) (offset int, ok bool) {
 	var (
 		syntaxErr *json.SyntaxError
 		typeErr   *json.UnmarshalTypeError
 	)
 	switch {
 	case errors.As(err, &syntaxErr):
-		return min(int(syntaxErr.Offset)-1, inputLength), true
+		return min(int(syntaxErr.Offset)-1+skipped, inputLength), true
 	case errors.As(err, &typeErr):
-		return min(int(typeErr.Offset)-1, inputLength), true
+		return min(int(typeErr.Offset)-1+skipped, inputLength), true
 	case errors.Is(err, io.ErrUnexpectedEOF), errors.Is(err, io.EOF):
 		return inputLength, true
 	default:
@@ -192,7 +194,7 @@ func drawMarker(window []byte, windowStart, markerPos, col int, msg string) stri
 }
 
 func prettyParseError(c *windowBuffer, err error) string {
-	absOffset, ok := errorOffset(c.consumedBytes, err)
+	absOffset, ok := errorOffset(c.consumedBytes, c.skippedBytes, err)
 	if !ok {
 		return err.Error()
 	}
